@@ -1023,12 +1023,14 @@ BN_Gamma == <<2, -4>>
 BN_Beta == <<3, -1>>
 BN_Mean == <<1, 2>>
 BN_Params(z) ==
-   {[op |-> "Gemm", bias |-> bi, alpha |-> al, beta |-> be, tb |-> tb, g |-> 1, pkind |-> "init", wkind |-> "init", shared |-> FALSE, var |-> v] :
+   {[op |-> "Gemm", bias |-> bi, alpha |-> al, beta |-> be, tb |-> tb, g |-> 1, pkind |-> "init", wkind |-> "init", shared |-> "none", var |-> v] :
         bi \in {"absent", "vec", "scalar", "row"}, al \in {NONE, 1, 2}, be \in {NONE, 1, 2}, tb \in BOOLEAN, v \in {1, 4}}
-   \cup {[op |-> op, bias |-> bi, alpha |-> NONE, beta |-> NONE, tb |-> FALSE, g |-> g, pkind |-> "init", wkind |-> "init", shared |-> FALSE, var |-> v] :
+   \cup {[op |-> op, bias |-> bi, alpha |-> NONE, beta |-> NONE, tb |-> FALSE, g |-> g, pkind |-> "init", wkind |-> "init", shared |-> "none", var |-> v] :
         op \in {"Conv", "ConvTranspose"}, bi \in {"absent", "vec"}, g \in {1, 2}, v \in {1, 4}}
    \cup {[op |-> op, bias |-> "vec", alpha |-> NONE, beta |-> NONE, tb |-> FALSE, g |-> 1, pkind |-> pk, wkind |-> wk, shared |-> sh, var |-> 4] :
-        op \in {"Gemm", "Conv", "ConvTranspose"}, pk \in Kinds, wk \in Kinds, sh \in BOOLEAN}
+        op \in {"Gemm", "Conv", "ConvTranspose"}, pk \in Kinds, wk \in Kinds,
+        \* another node reads the inbound WEIGHT, or the inbound BIAS (the fused tensors are registered under the old names)
+        sh \in {"none", "w", "b"}}
 BN_S(q) == [c \in 1..2 |-> BN_Gamma[c] \div (IF q.var = 4 THEN 2 ELSE 1)]
 BN_X(q) == IF q.op = "Gemm" THEN T("f32", <<2, 2>>, <<1, 2, 3, 4>>) ELSE T("f32", <<1, 2, 3>>, <<1, 2, 3, 4, 5, 6>>)
 \* weights: Gemm [K=2, N=2] (stored [N, K] with transB); Conv [M=2, C/g, 1]; ConvTranspose [C=2, M/g, 1]
@@ -1054,7 +1056,7 @@ BN_Match(q, devs) == TRUE
 BN_Check(q, devs) ==
    \* every parameter must be an initializer that is not a graph input; inbound weights / bias not shared with other nodes
    IF q.pkind # "init" \/ q.wkind # "init" THEN "fail"
-   ELSE IF q.shared THEN "fail"
+   ELSE IF q.shared # "none" THEN "fail"
    \* design: the fused bias goes through Gemm's beta
    ELSE IF "bn_gemm_beta" \notin devs /\ q.op = "Gemm" /\ AttrI(q.beta, 1) # 1 THEN "fail"
    ELSE "ok"
